@@ -18,7 +18,9 @@ META = {
         'DML/DDL; everything else is SELECT or a whitelisted PRAGMA. R4: remove() deletes all transitive '
         'extensions (unbounded depth, untruncated) and then the lexicon. R5: _insert_lexicon always re-links '
         'waiting dependencies and inserts dependency rows with the provider looked up by (id, version). '
-        'R6: the skip test dominates every write of a lexicon.'),
+        'R6: the skip test dominates every write of a lexicon. R10: _update_lookup_tables registers, unconditionally and '
+        'unfiltered, the relation types of all synset relations (external synsets included) and all sense relations of the '
+        'lexicon being added, so no later sub-select depends on lookup rows left by other lexicons.'),
     'decides': ['cascade closure', 'FK enforcement per connection', 'single writer', 'remove shape', 'dependency relink',
                 'skip dominance'],
     'not_decided': ['equality of database images across histories', 'rowid reuse effects'],
@@ -440,6 +442,48 @@ def r9_selection_materialised(ctx, res):
         raise AnalysisError(f'only {n} loops over generator queries found')
 
 
+LOOKUP_SOURCES = {
+    # lookup table -> the loops (over the lexicon being added, unfiltered) whose values must all be registered before use,
+    # i.e. the collections the consuming INSERTs iterate: synset relations of ALL synsets (external ones included: their
+    # relations are inserted by _insert_synset_relations(_synsets(lexicon))), sense relations of all senses of all entries
+    'relation_types': [
+        (r"\$\d+\['relType'\]", ("for lexicon.get('synsets', [])", "for $1.get('relations', [])")),
+        (r"\$\d+\['relType'\]", ("for lexicon.get('entries', [])", "for $1.get('senses', [])", "for $2.get('relations', [])")),
+    ],
+}
+
+
+def r10_lookup_tables_complete(ctx, res):
+    """add() registers in the shared lookup tables every value the lexicon being added uses, so that no id->rowid sub-select
+    of a later INSERT depends on a lookup row that another (possibly removed) lexicon left behind.  On the effect summary of
+    _update_lookup_tables: for each lookup table the registered set receives, unconditionally, the values of the listed
+    unfiltered loops, and it is that set which is inserted."""
+    import re as _re
+    from ..speccheck import view
+    v = view(ctx, '_add', '_update_lookup_tables')
+    for table, sources in LOOKUP_SOURCES.items():
+        ins = [r for r in v.rows if r[0] == 'call' and '.executemany(' in r[1] and f'INTO {table} ' in r[1]]
+        key = f'lookup-complete:{table}'
+        res.inst(key, v.loc(), f'{len(sources)} source loops')
+        if len(ins) != 1:
+            raise AnalysisError(f'anchor vanished: one executemany INSERT OR IGNORE INTO {table} in _update_lookup_tables')
+        m = _re.search(r'for _1 in sorted\(#(\d+)\)\]\)$', ins[0][1]) or _re.search(r'#(\d+)', ins[0][1])
+        if not m or ins[0][2] or ins[0][3]:
+            res.find(key, v.loc(ins[0][4]), f'the INSERT into {table} is conditional or no longer inserts the collected set')
+            continue
+        cell = m.group(1)
+        for pat_, loops in sources:
+            k2 = f'{key}:{loops[0][4:40]}'
+            hits = [r for r in v.rows if r[0] == 'call' and _re.fullmatch(rf'#{cell}\.add\({pat_}\)', r[1]) and tuple(r[3]) == tuple(loops)]
+            res.inst(k2, v.loc(), f'{len(hits)} registering effect(s)')
+            if not hits:
+                res.find(k2, v.loc(), f'_update_lookup_tables does not register in {table} the values of the loop {list(loops)} (unfiltered): a value '
+                                      f'used only there is looked up later by an INSERT sub-select and resolves to NULL - or to a row that '
+                                      f'another, possibly removed, lexicon left behind')
+            elif all(r[2] for r in hits):
+                res.find(k2, v.loc(hits[0][4]), f'_update_lookup_tables registers the values of {list(loops)} in {table} only when {sorted(hits[0][2])}')
+
+
 RULES = [
     ('C05-R1', r1_cascade_closure, 40),
     ('C05-R2', r2_fk_enforcement, 3),
@@ -450,4 +494,5 @@ RULES = [
     ('C05-R7', r7_ownership, 12),
     ('C05-R8', r8_no_stale_state, 200),
     ('C05-R9', r9_selection_materialised, 3),
+    ('C05-R10', r10_lookup_tables_complete, 3),
 ]
